@@ -71,6 +71,8 @@ def run(ctx):
         for m in models:
             f.write(json.dumps(m) + "\n")
     outp = os.path.join(wd, "C07-files.ndjson")
+    # one large model: 45 000 unigrams x 510 weights (about 23 MB on disk, 90 MB decoded)
+    os.environ["VERIF_BIG_NGRAMS"] = "45000"
     vlib.run_harness(binp, ["files", mp, outp, "0" if ctx.quick else "1", "/repo/resources/model.bin"], name="files driver")
     events = [json.loads(x) for x in open(outp)]
     ctx.evaluations += len(events)
